@@ -82,6 +82,10 @@ def prefix_events(name, s, kind):
         return [E.ev(name, 1, o, tid=2)]
     if kind == 'other-call-open':
         return [E.ev('BSC_getpid', 1, o)]
+    if kind == 'option-named-at-SOL_SOCKET-before':
+        # a completed call of the same decoder that showed the SAME option word by its SO_* name (level = the host's SOL_SOCKET)
+        import socket
+        return [E.ev(name, 1, (o[0], socket.SOL_SOCKET, s[2], o[3])), E.ev(name, 2, (0, 0x9e9e, 0x9f9f, 0x9a9a))]
     return []
 
 
@@ -155,7 +159,7 @@ def render(name, s, e, nlook, prefix=None):
         return None, f'{len(mine)} traces for one START/END pair'
     # records of this call that do not complete a START/END pair (a stray END, a START whose END was lost) are nobody's call
     same = [t for t in out if t.ktraces[0].eventid == evs[len(pre)].eventid]
-    completed = 2 if prefix == 'other-thread-crossing' else 1
+    completed = 2 if prefix in ('other-thread-crossing', 'option-named-at-SOL_SOCKET-before') else 1
     if len(same) != completed:
         return None, f'{len(same)} traces of this call where {completed} START/END pair(s) completed'
     closed = [t for t in out if t.ktraces[-1].eventid == evs[len(pre)].eventid and t.ktraces[-1].func_qualifier == 2]
@@ -187,6 +191,14 @@ def judge(name, s, nlook, prefix=None):
             if lit not in renderings(s[j]):
                 return ('parameter-not-from-its-START-word', {'text': txt, 'position': j, 'token': t,
                                                               'start_words': [hex(x) for x in s]}), None
+        if name in ('BSC_getsockopt', 'BSC_setsockopt') and len(toks) > 2:
+            # the one symbolic rule kept here: the NAME SOL_SOCKET stands for the level word 0xffff (Darwin) / 1 (this host's table,
+            # K2) only, and an SO_* name at the option position is the name of that START word
+            if toks[1].strip() == 'SOL_SOCKET' and s[1] not in (1, 0xffff):
+                return ('level-name-not-from-its-START-word', {'text': txt, 'level_word': hex(s[1])}), None
+            so_names = D.frozen_enum('bsd.SocketOptionName')
+            if toks[2].strip() in so_names and so_names[toks[2].strip()] != s[2]:
+                return ('option-name-not-from-its-START-word', {'text': txt, 'option_word': hex(s[2])}), None
         calls.append((fn, tuple(toks)))
     if any(c != calls[0] for c in calls):
         return ('call-part-depends-on-END-record', {'calls': [repr(c) for c in calls]}), None
@@ -201,10 +213,10 @@ class C09(Check):
             'enum-valued positions (frozen table) over every member, ioctl request over Darwin _IOC words - x 3 END tuples '
             '(success, failure, other values) with 0 lookups, every point with <=2 non-default words with 2 nested lookups, and every '
             'point with <=1 non-default word preceded by {an earlier START of the same call whose END was lost, a stray END, two stray ENDs with another record between them, the same '
-            'call still open on another thread (parser built with a populated thread map; also crossing: A.START B.START A.END B.END), another call still open on the same thread, another call opened inside the window and still open at its END, two calls whose ENDs were lost, another call of the same thread that started before and ends inside the window (overlapping, not nested), the thread known to the thread map the parser was built with, undecoded records of the call s own family (names that begin with the call s name, e.g. _extended_info) inside the window} carrying words that never equal an '
+            'call still open on another thread (parser built with a populated thread map; also crossing: A.START B.START A.END B.END), another call still open on the same thread, another call opened inside the window and still open at its END, two calls whose ENDs were lost, another call of the same thread that started before and ends inside the window (overlapping, not nested), the thread known to the thread map the parser was built with, (socket options: every declared SO_* option word at the levels {0, 6, 41, 0xfffe} after a completed call that showed the same word by name at SOL_SOCKET), undecoded records of the call s own family (names that begin with the call s name, e.g. _extended_info) inside the window} carrying words that never equal an '
             'enumerated one; windows whose nested lookups carry timestamps below the START tick and whose END carries the START tick; two consecutive calls per decoder read from v2 / v3 dump files whose records all carry the same timestamp; and one window per decoder with 5000 stand-alone same-thread records between START and END. '
             'Oracle: every integer-literal token at position k is one of the renderings {u64, i64, u32, i32 decimal; u64, u32 hex} of '
-            'START word k in every run; no numeric token beyond position 3; call part identical across END tuples. BSD / Mach decoders the tree registers beyond those of the pinned commit are fed the numeric product and held to the same rule where they render. Distinct by '
+            'START word k in every run; no numeric token beyond position 3; call part identical across END tuples; for the socket-option calls the level name SOL_SOCKET is shown only for the level words 0xffff / 1 and an SO_* name only for its own option word. BSD / Mach decoders the tree registers beyond those of the pinned commit are fed the numeric product and held to the same rule where they render. Distinct by '
             'construction; non-trivial = the rendering is call-style and shows at least one numeric token.')
     assumptions = ('symbolic tokens (enum names, flag lists, quoted paths) are not judged here (C11/C08 own them)',
                    'renderings set: decimal unsigned/signed 64 and 32 bit, hex 64 and low 32 bit')
@@ -288,6 +300,13 @@ class C09(Check):
             for s in points:
                 bad, call = judge(name, s, 0)
                 self._acc(acc, name, s, 0, bad, call)
+            if name in ('BSC_getsockopt', 'BSC_setsockopt'):
+                # history: every declared SO_* option word at another level, after a call that showed that word by name
+                for o in so:
+                    for lvl in (0, 6, 41, 0xfffe):
+                        s = (doms[0][0], lvl, o, doms[3][0])
+                        bad, call = judge(name, s, 0, 'option-named-at-SOL_SOCKET-before')
+                        self._acc(acc, name, s, 0, (bad[0] + ':after-option-named-at-SOL_SOCKET-before', bad[1]) if bad else None, call, 'option-named-at-SOL_SOCKET-before')
             for s in deviation_bounded(doms, 2):
                 if name in ('BSC_getsockopt', 'BSC_setsockopt') and s[1] in (1, 0xffff):
                     continue
